@@ -46,6 +46,11 @@ func (r *BatchedTokenRequest) Unmarshal(data []byte) bool {
 	if offset < 0 || l > uint64(len(data)-offset) {
 		return false
 	}
+	if l == 0 {
+		// An empty list is not a batch: its own encoding (a single 0x00) is too
+		// short to be accepted above, so do not accept it in a longer buffer.
+		return false
+	}
 	end := offset + int(l)
 
 	r.token_requests = make([]tokens.TokenRequestWithDetails, 0)
